@@ -27,6 +27,8 @@ def key_descriptor(use, key_index):
     if key_index == "keyname":
         # a key that is only named (the certificate is expected to be known otherwise): legal, and nothing a certificate lookup can use
         return '<md:KeyDescriptor%s><ds:KeyInfo><ds:KeyName>signing-key-2020</ds:KeyName></ds:KeyInfo></md:KeyDescriptor>' % u
+    if key_index == "descriptor-without-keyinfo":
+        return '<md:KeyDescriptor%s/>' % u
     if key_index == "empty-certificate":
         # (a certificate element that was left empty, e.g. by a template)
         return '<md:KeyDescriptor%s><ds:KeyInfo><ds:X509Data><ds:X509Certificate/></ds:X509Data></ds:KeyInfo></md:KeyDescriptor>' % u
